@@ -179,6 +179,47 @@ Theorem C15_wait_nil_only_when_released :
 Proof. exact reach_nil_released. Qed.
 Print Assumptions C15_wait_nil_only_when_released.
 
+(* Clause 5 where users see it: fs.Check (the availability check containerd runs on a mounted snapshot). [fs_check] is the
+   model of its control flow on the waiter (registered? reachable - skipped once the blob is complete -? then, unless
+   prefetch is disabled, WaitForPrefetchCompletion, whose timeout is only logged); the script machine compares it with the
+   real fs.Check after the real fs.Mount.
+   (1) The answer is nil exactly when the layer is registered and reachable: a failed, slow or timed-out prefetch never
+       turns into a Check error.  (2) A Check that is unregistered / unreachable / run with noprefetch never touches the waiter.
+   (3) A healthy Check always returns (it is not left parked), leaves the waiter closed, and waited iff the waiter was open. *)
+Theorem C15_check_bounded :
+  (forall registered conn_ok noprefetch w id,
+     snd (fst (fs_check registered conn_ok noprefetch w id)) = ROk <-> (registered = true /\ conn_ok = true))
+  /\ (forall registered conn_ok noprefetch w id,
+        registered = false \/ conn_ok = false \/ noprefetch = true ->
+        fst (fst (fs_check registered conn_ok noprefetch w id)) = w /\ snd (fs_check registered conn_ok noprefetch w id) = false)
+  /\ (forall w id, fresh w id ->
+        let x := fs_check true true false w id in
+        ~ In id (waiting (fst (fst x))) /\ closed (fst (fst x)) = true /\ snd x = negb (closed w)
+        /\ (snd x = true -> In (id, true) (returned (fst (fst x))))).
+Proof. exact (conj fs_check_result (conj fs_check_skips fs_check_healthy)). Qed.
+Print Assumptions C15_check_bounded.
+
+(* "The FIRST availability check waits for prefetch": in every reachable state a healthy Check waits exactly when the
+   waiter is still open; it does not wait once the prefetch body has returned (ok or failed), taken the async branch, or
+   some wait timed out, and it does wait while none of these has happened. *)
+Theorem C15_first_check_waits_for_prefetch :
+  forall os id, let w := wexec winit os in fresh w id ->
+    (snd (fs_check true true false w id) = true <-> closed w = false)
+    /\ (pf w = Finished \/ pf_early w = true \/ timed_out w -> snd (fs_check true true false w id) = false)
+    /\ (pf w <> Finished -> pf_early w = false -> ~ timed_out w -> snd (fs_check true true false w id) = true).
+Proof. exact check_waits_iff_prefetch_pending. Qed.
+Print Assumptions C15_first_check_waits_for_prefetch.
+
+(* ... and only the first: after one healthy Check has returned, no Check (of any kind) ever waits again, whatever
+   happens in between (more Prefetch / BackgroundFetch calls, waits, timeouts, the body's end). *)
+Theorem C15_only_first_check_waits :
+  forall w id, fresh w id ->
+    forall os' registered conn_ok noprefetch id',
+      fresh (wexec (fst (fst (fs_check true true false w id))) os') id' ->
+      snd (fs_check registered conn_ok noprefetch (wexec (fst (fst (fs_check true true false w id))) os') id') = false.
+Proof. exact only_first_check_waits. Qed.
+Print Assumptions C15_only_first_check_waits.
+
 (* ---- non-vacuity ---- *)
 
 (* a two-file layer, landmark at 300: prefetch through a one-entry LRU with asynchronous persistence, the persist
@@ -203,6 +244,17 @@ Example C15_nonvacuous_waiter :
   /\ let t := wexec winit [WaitEnter 0; WaitTimeout 0; PfCall; WaitEnter 1; PfReturn true] in
      closes t = 1%nat /\ returned t = [(1%nat, false); (0%nat, true)] /\ pf t = Finished.
 Proof. vm_compute. repeat split; reflexivity. Qed.
+
+(* Check: Mount spawned the prefetch, it is still downloading: the first Check waits and times out (nil all the same), the
+   second returns at once; in the other history the body failed before the first Check: no wait *)
+Example C15_nonvacuous_check :
+  let w := wexec winit [PfCall] in
+  let x := fs_check true true false w 0 in
+  fresh w 0 /\ snd x = true /\ snd (fst x) = ROk /\ closed (fst (fst x)) = true
+  /\ snd (fs_check true true false (fst (fst x)) 1) = false
+  /\ snd (fs_check true true false (wexec winit [PfCall; PfReturn false]) 0) = false
+  /\ snd (fst (fs_check true false false w 0)) = RErr.
+Proof. vm_compute. repeat split; try reflexivity; try (intro H; exact H); intros b H; exact H. Qed.
 
 (* download: blob of 10500 bytes, registry chunks of 1000, prefetch chunk size 2500 (pieces of 2000), chunk 10000 cached by
    the footer read, chunk 1000 by an earlier read: the requests for [0, 4700) *)
